@@ -160,7 +160,7 @@ class Ctx:
             path = os.path.join(VERIF, 'work', 'replay', '%s-%s.json' % (self.prop, self.tier))
             with open(path, 'w') as f:
                 json.dump({'property': self.prop, 'seed': self.seed, 'tier': self.tier,
-                           'violations': self.violations[:20]}, f, indent=1, default=str)
+                           'violations': self.violations[:300]}, f, indent=1, default=str)
             for v in self.violations[:5]:
                 print('  - %s' % v['what'])
             tail = '' if first['found'] else ' no-failing-input-found'
